@@ -96,6 +96,14 @@ Theorem C31_rotation_installs_a_filter :
 Proof. exact rotation_installs_a_filter. Qed.
 Print Assumptions C31_rotation_installs_a_filter.
 
+(* ... and the rotation creates a fresh future generation, so that a drop recorded right after a rotation is held by
+   both generations and (C31_dropped_until_rotation, second alternative) survives the next rotation too. *)
+Theorem C31_rotation_creates_a_future :
+  forall (slots_of : N -> N) k, chk_rotates k = true ->
+  fut (chk_maintain slots_of k) = Some (new_gen slots_of (capa k)).
+Proof. exact rotation_creates_a_future. Qed.
+Print Assumptions C31_rotation_creates_a_future.
+
 (* CheckSpan answers "dropped" right after the record, before any drain (recent-drop set). *)
 Theorem C31_checkspan_sees_recent_drop :
   forall (h : string -> N) (slots_of : N -> N) c x ann,
